@@ -59,6 +59,13 @@ func randomName(r *rand.Rand) string {
 
 // mangleStrA/D/D1, makeIdentifier: len(result) <= (joliet ? 2 : 1) * len(input); deterministic.
 func TestConformanceNameMapping(t *testing.T) {
+	for _, in := range []string{"", "\x00", "\x01", "\u0100", "\u0001", "\x00\x00", "\xff"} {
+		for _, joliet := range []bool{false, true} {
+			if a := makeIdentifier(in, joliet); a == dotEntryIdentifier || a == dotDotEntryIdentifier {
+				t.Fatalf("makeIdentifier(%q,%v) is the identifier of a dot record", in, joliet)
+			}
+		}
+	}
 	r := rand.New(rand.NewSource(1))
 	for i := 0; i < 20000; i++ {
 		in := randomName(r)
@@ -80,6 +87,10 @@ func TestConformanceNameMapping(t *testing.T) {
 			if a != b || len(a) > max {
 				t.Fatalf("makeIdentifier(%q,%v): %q / %q, max %d", in, joliet, a, b, max)
 			}
+			// axiom identOf-is-not-dot: a mapped name is never the identifier of '.' or '..'
+			if a == dotEntryIdentifier || a == dotDotEntryIdentifier {
+				t.Fatalf("makeIdentifier(%q,%v) is the identifier of a dot record", in, joliet)
+			}
 			_ = utf8.ValidString(in)
 		}
 	}
@@ -87,6 +98,22 @@ func TestConformanceNameMapping(t *testing.T) {
 
 // pathTable.size / dirItemList.size: non-negative, whole sectors for directories, within the stated bounds.
 func TestConformanceSizes(t *testing.T) {
+	// size(): no records in any directory of the hierarchy -> 0 bytes (the clause @no-records-no-bytes)
+	for n := 0; n < 5; n++ {
+		l := make(dirItemList, n)
+		for i := range l {
+			l[i].dirEntryJoliet = []directoryEntry{{Identifier: "X"}}
+		}
+		if got := l.size(false); got != 0 {
+			t.Fatalf("size(false) of %d directories without iso records = %d", n, got)
+		}
+		for i := range l {
+			l[i].dirEntry, l[i].dirEntryJoliet = l[i].dirEntryJoliet, nil
+		}
+		if got := l.size(true); got != 0 {
+			t.Fatalf("size(true) of %d directories without joliet records = %d", n, got)
+		}
+	}
 	r := rand.New(rand.NewSource(2))
 	for i := 0; i < 2000; i++ {
 		var pt pathTable
@@ -94,7 +121,7 @@ func TestConformanceSizes(t *testing.T) {
 		for k := 0; k < n; k++ {
 			pt = append(pt, pathTableEntry{DirIdentifier: stringD1(strings.Repeat("x", r.Intn(256)))})
 		}
-		if s := pt.size(); s < 0 || s > sizeBytes(263*len(pt)) {
+		if s := pt.size(); s < 0 || s > sizeBytes(264*len(pt)) {
 			t.Fatalf("pathTable.size() = %d for %d entries", s, len(pt))
 		}
 		var l dirItemList
